@@ -21,7 +21,9 @@ PROPERTY = "C06"
 RULE = ("decoder-accepted encodings: every (prefix|none, opcode) pair with second byte/operands from a seeded "
         "hash + boundary bytes (thorough: every structural head (pre, opcode, b2) the Python decoder accepts) x "
         "one generated state each (registers boundary-biased, pointers interior 7/8 / boundary 1/8, F random, "
-        "BP/PX/PY random, memory = address hash), executed once on both cores; plus lockstep programs. "
+        "BP/PX/PY random, memory = address hash), executed once on both cores; plus lockstep programs; plus landmark operands "
+        "(every opcode, no prefix + 1 (quick) / 3 (thorough) prefixes: whole-operand values equal to the instruction's "
+        "own address, its fall-through address, vectors, window bases, re-pointed at the PC drawn). "
         "Non-trivial = the instruction writes memory or a register other than PC, or changes power state (on "
         "either core); distinct = (pre, opcode, b2, state class).")
 
@@ -86,8 +88,9 @@ def window_alias(py: Dict[str, Any], rs: Dict[str, Any]) -> bool:
     ap, ar = _accessed(py), _accessed(rs)
     for a in range(0x100):
         i = 0x100000 + a
-        if (a in ap and a not in ar and i in ar and i not in ap) or \
-           (a in ar and a not in ap and i in ap and i not in ar):
+        # (the internal cell may be accessed by both cores for another reason, e.g. BP/PX/PY read for addressing;
+        #  what identifies the alias is the external cell that only one core touched)
+        if (a in ap and a not in ar and i in ar) or (a in ar and a not in ap and i in ap):
             return True
     return False
 
@@ -282,6 +285,49 @@ def _shard(task: Tuple[int, int, int, str]) -> Report:
                     if len(cases) >= 2048:
                         eval_cases(cases, rep)
                         cases = []
+    eval_cases(cases, rep)
+    return rep
+
+
+def _landmark_shard(task: Tuple[int, int, int, str]) -> Report:
+    """Whole-operand landmark values (gen_enc.landmark_values): operands equal to the instruction's own address, its
+    fall-through address, vectors, window bases ... for every opcode, without prefix and with one (quick) / three
+    (thorough) seed-chosen prefixes.  The state is generated first; the operand is then rewritten for the PC drawn."""
+    shard, nshards, seed, tier = task
+    rep = Report()
+    cases: List[Tuple[Dict[str, Any], str, Any, List[str]]] = []
+    npre = 1 if tier == "quick" else 3
+    for op in range(256):
+        if op % nshards != shard or G.is_pre(op):
+            continue
+        pres = [None] + [G.PRE_OPCODES[mix32(seed, op, j, 0x1B) % len(G.PRE_OPCODES)] for j in range(npre)]
+        for pi, pre in enumerate(pres):
+            probe = G.landmark_buffers(pre, op, 0x1000, seed)
+            for k, (tag, buf0) in enumerate(probe):
+                keep = tag.startswith("self") or (mix32(seed, op, k, pi) % 4 == 0) or tier != "quick"
+                if not keep:
+                    continue
+                ln = G.info_len(buf0 + G.NOP_PAD)
+                if ln is None:
+                    rep.filtered += 1
+                    continue
+                mn, _shape = describe(buf0[:ln])
+                st = S.Stream(seed, 0x1A4D, op, pi, k)
+                case, labels = S.gen_state(st, buf0[:ln], mn, imax=12)
+                pc = case["regs"]["PC"]
+                buf = dict(G.landmark_buffers(pre, op, pc, seed)).get(tag)
+                # re-point the operand at the PC actually drawn (same length required, otherwise the case is dropped)
+                if buf is None or G.info_len(buf + G.NOP_PAD, pc) != ln or pc + ln > 0xFFFFF:
+                    rep.filtered += 1
+                    continue
+                code = buf[:ln]
+                newmem = []
+                for a, v in case["mem"]:
+                    off = a - pc
+                    newmem.append([a, code[off]] if 0 <= off < ln else [a, v])
+                case["mem"] = newmem
+                where = where_of(pre, op, mn)
+                cases.append((case, where, f"lm:{pre}:{op:02X}:{tag}", labels + ["landmark:" + tag.split("@")[0].split(":")[0]]))
     eval_cases(cases, rep)
     return rep
 
@@ -499,6 +545,7 @@ def run(ctx: Ctx) -> Report:
     rsclient.build()
     nshards = 16 if ctx.quick else 64
     reports = ctx.pmap(_shard, [(i, nshards, ctx.seed, ctx.tier) for i in range(nshards)])
+    reports += ctx.pmap(_landmark_shard, [(i, 16, ctx.seed, ctx.tier) for i in range(16)])
     nprog = ctx.pick(16, 320)
     reports += ctx.pmap(_program_shard, [(i, ctx.shard_seed(500 + i), ctx.tier, nprog) for i in range(16)])
     rep = ctx.merge_reports(reports)
